@@ -71,6 +71,8 @@ public:
     struct DeliveryRec { int idx; bool force; bool accepted; bool has_verdict; bool valid; int result; std::string reason; };
     std::vector<DeliveryRec> delivery_log;  //!< every ProcessNewBlock call in order (twin runs replay it)
     int64_t start_time{0};
+    int64_t start_shift{0};           //!< added to the initial mock time (blocks then lag the clock: the node stays in initial block download when max_tip_age is small)
+    bool next_block_time_now{false};  //!< the next defect-free block mined takes the current mock time as its timestamp (ends such an IBD phase)
     int reorgs{0};
     std::function<void(NodeOpts&)> tweak_opts;              //!< engines adjust node options before the node starts
     std::function<void(int flush_mode)> on_full_flush;      //!< called right after a forced full flush (or clean restart) returned
